@@ -21,7 +21,13 @@ def log(*a):
 def sha(paths):
     h = hashlib.sha1()
     for p in sorted(paths):
-        h.update(p.encode())
+        # location-independent: an isolated copy of /verif (tools/seed_eval.py --isolated) shares the caches
+        rel = p
+        for base in (VERIF, REPO):
+            if p.startswith(base + os.sep):
+                rel = os.path.relpath(p, base)
+                break
+        h.update(rel.encode())
         with open(p, "rb") as f:
             h.update(f.read())
     return h.hexdigest()[:16]
@@ -546,6 +552,7 @@ def run_check(pid, tier, seed, replay):
             if os.path.exists(t["path"]) and os.path.getsize(t["path"]) > 0:
                 jobs.append((t, "TraceRef", ex.submit(validate, "TraceRef", t["path"])))
                 jobs.append((t, "TraceCount", ex.submit(validate, "TraceCount", t["path"])))
+                jobs.append((t, "TraceGriddle", ex.submit(validate, "TraceGriddle", t["path"])))
                 if t.get("pair") and os.path.exists(t["pair"]):
                     jobs.append((t, "TraceDiff", ex.submit(validate, "TraceDiff", t["path"], t["pair"])))
         results = [(t, sp, f.result()) for t, sp, f in jobs]
@@ -563,9 +570,9 @@ def run_check(pid, tier, seed, replay):
     seen_paths = set()
     for t, sp, r in results:
         if r["tool_error"]:
-            if sp == "TraceCount":
-                # the strict spec never decides a property: an evaluation error there is reported as drift
-                drift.append(dict(trace=t["path"], what="strict_spec_evaluation_error", line=0, op="?"))
+            if sp in ("TraceCount", "TraceGriddle"):
+                # the strict specs never decide a property: an evaluation error there is reported as drift
+                drift.append(dict(trace=t["path"], what="strict_spec_evaluation_error_" + sp, line=0, op="?"))
             else:
                 tool_err.append((t["path"], sp, r["tail"][-600:]))
             continue
@@ -630,6 +637,8 @@ def run_check(pid, tier, seed, replay):
 def write_evidence(pid, tier, seed, mcs, traces, violations, drift, notes, t0, nvalid, stats=None, tool_error=False, proof=None):
     if any(t.get("suite") == "replay" for t in traces):
         return      # a replay of one recorded history is not a coverage run
+    if os.environ.get("VERIF_NO_EVIDENCE"):
+        return      # tools/try.sh, tools/seed_eval.py: runs against a deliberately broken tree
     stats = stats or dict(events=0, ops={}, split_states=set(), split_events=0, samples=[])
     states = sum(m["distinct"] for m in mcs)
     trans = sum(m["generated"] for m in mcs)
